@@ -884,7 +884,7 @@ CondNeverCreates ==
 ClearEmpties == (NoKF /\ Quiescent) => \A i \in Resident : store[i].val \notin gh.cleared
 \* C16: with quiescence between writes, the charge of a resident entry is the one its insert asked for
 \* (indices that two distinct keys have been written under are left out: a colliding insert re-charges)
-SharedIndex(i) == \E v, w \in Val : owner[v] # Nil /\ owner[w] # Nil /\ owner[v][1] = i /\ owner[w][1] = i /\ owner[v][2] # owner[w][2]
+SharedIndex(i) == \E v \in Val : owner[v] # Nil /\ owner[v][1] = i /\ owner[v][2] # owner[store[i].val][2]
 ChargeFormula == (NoKF /\ gh.seqOK /\ Quiescent /\ ~errSeen) =>
     \A i \in Resident : (i \in Charged /\ ~SharedIndex(i)) => costs[i] = gh.vcost[store[i].val]
 \* C17
